@@ -117,6 +117,7 @@ def run(ctx):
     r.log = lg
     dsl.verify(ctx, repo, r, "C18", C.RUN, C.h_run, expect_covers=["multi-chain", "single-chain"])
     dsl.verify(ctx, repo, dsl.Registry(), "C18", "phyclone.run.run_phyclone_chain", C.h_chain_isolation, expect_covers=["chain-isolation"])
+    dsl.verify(ctx, repo, dsl.Registry(), "C18", "phyclone.run.instantiate_and_seed_RNG", C.h_seed_rng, expect_covers=["seed-given", "seed-none"])
     ctx.trust(*r.assumed)
     files = C.run_path_files(core.REPO)
     if len(files) < 20:
